@@ -590,10 +590,10 @@ impl Prop for Ranking {
     }
     fn streams(&self) -> Vec<Stream> {
         match self.0 {
-            Which::Verdicts => vec![Stream::new("stores", 6400, 64000), Stream::new("corpus", 48, 960)],
-            Which::Order => vec![Stream::new("stores", 3200, 32000)],
-            Which::Rules => vec![Stream::new("rules", 8400, 84000)],
-            Which::Empty => vec![Stream::new("stores", 32000, 320000)],
+            Which::Verdicts => vec![Stream::new("stores", 6400, 320000), Stream::new("corpus", 48, 960)],
+            Which::Order => vec![Stream::new("stores", 3200, 160000)],
+            Which::Rules => vec![Stream::new("rules", 8400, 420000)],
+            Which::Empty => vec![Stream::new("stores", 32000, 1600000)],
         }
     }
     fn floors(&self) -> Vec<(&'static str, u64, u64)> {
